@@ -94,6 +94,7 @@ def gen_case(tape, tier):
             pre = "none"
     if pre.startswith("crashed"):
         cfg["pre_crash_at"] = 2 + tape.choose(60, "pre-crash-at")
+        cfg["pre_other_version"] = bool(pre == "crashed-same" and tape.coin(0.5, "other-version"))
     cfg["pre"] = pre
     # an earlier *process* left the folder behind (process-wide caches are gone) or the same long-lived process
     # (a notebook) ran the earlier map itself (they are still there)
@@ -406,6 +407,21 @@ def _run_case(case, exec_seed=None, exec_tape=None):
                 out["exec_tape"] = tape.recorded()
                 return out
             pcfg = dict(cfg, executor={"kind": "sequential"}, orphans=False)
+            if pre == "crashed-same" and cfg.get("pre_other_version"):
+                # the attempt that died ran an earlier version of the user's functions (same names, other results): what it
+                # stored completely stays, what the run recomputes must replace every output of that element
+                pcfg["tags"] = {fd["name"]: "'old" for fd in w["functions"]}
+                probes["pre_other_function_version"] = 1
+                # aim the death at the moment between the stores of the outputs of one element of a multi-output function
+                firsts = [fd["outputs"][0] for fd in w["functions"] if len(fd["outputs"]) > 1 and fd.get("mapspec")]
+                if firsts:
+                    with C.Scratch() as dry:
+                        base = c05.run_attempt(w, pcfg, dry, Tape(recorded=[]), attempt=-1, cleanup=True)
+                    cands = [n + 1 for (n, kind, rel, _nb, _th) in base.trace
+                             if kind == "replace" and any(f"outputs/{o}/" in rel for o in firsts)]
+                    if cands:
+                        cfg = dict(cfg, pre_crash_at=cands[tape.choose(len(cands), "aimed-crash")])
+                        probes["pre_crash_aimed_between_outputs"] = 1
             if pre in ("crashed-other", "crashed-same"):
                 a0 = c05.run_attempt(w, pcfg, root, tape, attempt=-1, cleanup=True,
                                      interruption={"kind": "crash", "at": cfg["pre_crash_at"], "torn": None},
